@@ -12,8 +12,11 @@
    characters of the set (lstrip, rstrip, strip: a = pre ++ stripped ++ suf with pre, suf inside the set and the
    stripped string neither starting nor ending inside it); the occurrence count is the number of split pieces minus
    one; upper / lower keep the length, are idempotent, upper leaves no lower-case letter and changes nothing else;
-   swapcase is an involution.  replace / class predicates are not stated as theorems. *)
-From ArrRs Require Import Index Axis Broadcast Broadcast_proofs Str Str_proofs Strlaws_proofs.
+   swapcase is an involution.  REPLACE (C17_replace): replacing the non-overlapping occurrences of a non-empty `old`
+   from left to right, at most `count` of them, is splitting on `old` into at most count + 1 pieces and joining the
+   pieces with `new`; hence replacing a pattern by itself, or zero occurrences, changes nothing.  Class predicates,
+   translate and zfill are not stated as theorems. *)
+From ArrRs Require Import Index Axis Broadcast Broadcast_proofs Str Str_proofs Strlaws_proofs Replace_proofs.
 
 Theorem C17_lift2 : forall (U : Type) (f : str -> str -> U) (a b : arr str),
   wf a -> wf b -> pos_shape (shape a) -> pos_shape (shape b) -> is_broadcastable (shape a) (shape b) = Ok tt ->
@@ -89,3 +92,16 @@ Example C17_nonvacuous :
   rsplit_str [97;98;45;99;100;45;101;102]%Z [45]%Z (Some 2) = [[97;98;45;99;100];[101;102]]%Z /\
   replace_str [97;98]%Z [97]%Z [98;97]%Z None = [98;97;98]%Z /\ s_less [97;32]%Z [97;98]%Z = true.
 Proof. repeat split; vm_compute; reflexivity. Qed.
+
+Theorem C17_replace : forall s old new count, old <> [] ->
+  replace_str s old new count = join_with new (split_str s old (option_map S count)).
+Proof. exact replace_is_split_join. Qed.
+
+Theorem C17_replace_laws : forall s old new, old <> [] ->
+  replace_str s old old None = s /\ replace_str s old new (Some 0) = s.
+Proof. intros s old new H. split; [apply replace_self | apply replace_zero]; exact H. Qed.
+
+Example C17_replace_nonvacuous :
+  replace_str [97;97;97;98]%Z [97;97]%Z [120]%Z None = [120;97;98]%Z /\
+  replace_str [97;45;98;45;99]%Z [45]%Z [43;43]%Z (Some 1) = [97;43;43;98;45;99]%Z.
+Proof. split; vm_compute; reflexivity. Qed.
